@@ -32,13 +32,15 @@ def tracker_step(ctx, pfx, A, b, shape_term, sentinel):
     ctx.check(pfx + '.first', A, 'first-step', T.subst(gen, {n0: T.ZERO}) is T.powi(X, 2), expected='general formula at n0 = 0 equals x^2',
               found=show(T.subst(gen, {n0: T.ZERO})), why='first-step special case is consistent', sp=sp)
     ctx.eq(pfx + '.ema.last_state', A, 'last_state', fin['last_state'], X, why='the next indicator compares with the state just fed', sp=sp)
-    folds = [ls for ls in ev.vf.loops if ls.kind == 'fold']
-    if len(folds) != 1 or len(folds[0].lh) != 1:
+    # the acceptance average: a fold over the paired rows, or the same written as a `for` with a running local
+    folds = [ls for ls in ev.vf.loops if ls.kind == 'fold' or (ls.kind == 'for' and 'rows' in (ls.seq_desc or '') and len(carried_keys(ls)) == 1 and not ls.exits and not ls.ctx)]
+    if len(folds) != 1 or len(carried_keys(folds[0])) != 1:
         for o in ('alpha', 'indicator', 'init'):
             ctx.unknown(pfx + '.ema.' + o, A, 'ema.' + o, why='expected one fold over the rows computing the acceptance EMA', sp=sp)
         return
     ls = folds[0]
-    (k, lh), = ls.lh.items()
+    k = carried_keys(ls)[0]
+    lh = ls.lh[k]
     nxt = ls.next[k]
     it = ls.var
     ind_c = T.cmp('ne', T.app('rows_at', X, it), T.app('rows_at', last0, it))
